@@ -135,7 +135,8 @@ def build_recording(tier):
     V0, A0 = ["--validate=false"], ["--alt=false"]
     plan = [("Pipeline_c04.cfg", None, 500 if thorough else 40, V0), ("Pipeline_c01sim.cfg", 1200 if thorough else 40, None, V0),
             ("Pipeline_sim.cfg", 2500 if thorough else 50, None, V0), ("Pipeline_c06sim.cfg", 1500 if thorough else 40, None, V0),
-            ("Pipeline_c07sim.cfg", 1500 if thorough else 40, None, V0), ("Pipeline_c10.cfg", None, 500 if thorough else 60, A0)]
+            ("Pipeline_c07sim.cfg", 1500 if thorough else 40, None, V0), ("Pipeline_c10.cfg", None, 500 if thorough else 60, A0),
+            ("Pipeline_c14sim.cfg", 2000 if thorough else 60, None, V0)]
     if thorough:
         plan.append(("Pipeline_c10sim.cfg", 1500, None, A0))
     import concurrent.futures
@@ -305,7 +306,7 @@ RULES = {
     "C07": "one evaluation per accepted run of a project with declared types (type zoo: renamed/omitempty/unexported/json '-' fields, pointers, slices, maps, time, bytes, enums of string/int, aliases, embedding, self reference, second package, usage-site validators); non-trivial = type graph with embedding, recursion or a cross-package reference",
     "C11": "one evaluation per project for which both dialects were generated; the two documents are compared after the dialect map (empty description, exclusive bounds, explicit false flags, type arrays, empty required/security lists); non-trivial = project with validator rules or enums",
     "C13": "one evaluation per accepted multi-run case (2+ fresh repeats and 8 forced schedules of file / node iteration order); non-trivial = >= 2 controllers",
-    "C14": "one evaluation per CLI run; non-trivial = run that reached validation (>= 5 hook events)",
+    "C14": "one evaluation per CLI run over all input sets, including the hostile ones (raw annotation properties such as {scopes: null}, arbitrary validator tags such as min=abc, unsupported type shapes: inline struct, func, chan, interface, fixed array, generics, mutual recursion) x both versions x spec-and-routes / spec; non-trivial = run that reached validation (>= 5 hook events)",
 }
 LEVELS = {"C14": "exploration"}
 
